@@ -23,6 +23,8 @@ const TENS: [&str; 10] = ["", "", "venti", "trenta", "quaranta", "cinquanta", "s
 pub struct Style {
     /// elide cento + ottanta -> centottanta
     pub elide_hundred: bool,
+    /// also elide before `otto` alone (`centotto`, `duecentotto`)
+    pub elide_otto: bool,
     /// space between the thousands part and the rest
     pub split_groups: bool,
     /// space between tens and unit where no elision applies (implies nothing else)
@@ -35,7 +37,7 @@ pub struct Style {
 
 impl Default for Style {
     fn default() -> Self {
-        Style { elide_hundred: true, split_groups: false, split_units: false, with_e: false, full_uno_before_scale: false }
+        Style { elide_hundred: true, elide_otto: false, split_groups: false, split_units: false, with_e: false, full_uno_before_scale: false }
     }
 }
 
@@ -78,7 +80,7 @@ fn below_1000(n: u64, st: &Style) -> Vec<String> {
             words.push(head);
             words.push("e".into());
             words.extend(tail);
-        } else if st.elide_hundred && (80..90).contains(&r) {
+        } else if (st.elide_hundred && (80..90).contains(&r)) || (st.elide_otto && r == 8) {
             let mut w = head[..head.len() - 1].to_string();
             w.push_str(&tail[0]);
             words.push(w);
@@ -179,6 +181,7 @@ pub fn variants(n: u64) -> Vec<Spelled> {
         Spelled { text: cardinal(n, &Style { split_groups: true, split_units: true, ..d.clone() }), variant: "split-tens-units" },
         Spelled { text: cardinal(n, &Style { elide_hundred: false, ..d.clone() }), variant: "cento-ottanta-unelided" },
         Spelled { text: cardinal(n, &Style { with_e: true, ..d.clone() }), variant: "optional-e" },
+        Spelled { text: cardinal(n, &Style { elide_otto: true, ..d.clone() }), variant: "centotto-elided" },
         Spelled { text: cardinal(n, &Style { full_uno_before_scale: true, ..d.clone() }), variant: "ventuno-milioni" },
     ]
 }
